@@ -923,7 +923,7 @@ func isUnknownSpec(a predOutcome) predOutcome {
 //@ ensures [C17] timestamp: is[*types.Timestamp](val2) ==> r1 == nil && r0 == val1.Compare(as[*types.Timestamp](val2).Time)
 //@ ensures [C17] incomparable: is[*types.Time](val2) || is[*types.TimeTZ](val2) ==> r0 == -2 && r1 == nil
 //@ ensures [C17] tz-required: is[*types.TimestampTZ](val2) && !useTZ ==> r1 != nil && errIs(r1, ErrExecution) && !errIs(r1, ErrVerbose)
-//@ ensures [C17] as-coded: is[*types.TimestampTZ](val2) && useTZ ==> r1 == nil
+//@ ensures [C17] coherent-with-cast: is[*types.TimestampTZ](val2) && useTZ ==> r1 == nil && r0 == val1.ToTimestampTZ(ctx).Compare(as[*types.TimestampTZ](val2).Time)
 
 //@ func compareTime
 //@ props C17
@@ -945,14 +945,15 @@ func isUnknownSpec(a predOutcome) predOutcome {
 //@ ensures [C17] date: is[*types.Date](val2) ==> r1 == nil && r0 == val1.Compare(as[*types.Date](val2).Time)
 //@ ensures [C17] incomparable: is[*types.Time](val2) || is[*types.TimeTZ](val2) ==> r0 == -2 && r1 == nil
 //@ ensures [C17] tz-required: is[*types.TimestampTZ](val2) && !useTZ ==> r1 != nil && errIs(r1, ErrExecution) && !errIs(r1, ErrVerbose)
-//@ ensures [C17] as-coded: is[*types.TimestampTZ](val2) && useTZ ==> r1 == nil
+//@ ensures [C17] coherent-with-cast: is[*types.TimestampTZ](val2) && useTZ ==> r1 == nil && r0 == val1.ToTimestampTZ(ctx).Compare(as[*types.TimestampTZ](val2).Time)
 
 //@ func compareTimestampTZ
 //@ props C17
 //@ ensures [C17] same: is[*types.TimestampTZ](val2) ==> r1 == nil && r0 == val1.Compare(as[*types.TimestampTZ](val2).Time)
 //@ ensures [C17] incomparable: is[*types.Time](val2) || is[*types.TimeTZ](val2) ==> r0 == -2 && r1 == nil
 //@ ensures [C17] tz-required: (is[*types.Date](val2) || is[*types.Timestamp](val2)) && !useTZ ==> r1 != nil && errIs(r1, ErrExecution) && !errIs(r1, ErrVerbose)
-//@ ensures [C17] as-coded: (is[*types.Date](val2) || is[*types.Timestamp](val2)) && useTZ ==> r1 == nil
+//@ ensures [C17] coherent-with-cast-date: is[*types.Date](val2) && useTZ ==> r1 == nil && r0 == val1.Compare(as[*types.Date](val2).ToTimestampTZ(ctx).Time)
+//@ ensures [C17] coherent-with-cast-timestamp: is[*types.Timestamp](val2) && useTZ ==> r1 == nil && r0 == val1.Compare(as[*types.Timestamp](val2).ToTimestampTZ(ctx).Time)
 
 //@ func (*Executor).parseDateTimeFormat
 //@ props C17 C08
